@@ -109,6 +109,12 @@ def eval_arith(a, cols, vars_):
     raise Unsupported(f"arith {k}")
 
 
+def _str_code(st):
+    if isinstance(st, str) and len(st) == 4 and st[0] == "k" and st[1:].isdigit():
+        return int(st[1:]) - 500
+    return None
+
+
 def eval_pred(p, cols):
     k = p["p"]
     n = len(cols)
@@ -124,6 +130,14 @@ def eval_pred(p, cols):
         if p["col"] >= n:
             return p["op"] == "Ne"
         return CMP(p["op"], cols[p["col"]], p["val"])
+    if k == "ColStr":
+        # string columns are Int codes with the same order (see pengine.str_of)
+        code = _str_code(p["val"])
+        if code is None:
+            raise Unsupported("string constant outside the modelled universe")
+        if p["col"] >= n:
+            return p["op"] == "Ne"
+        return CMP(p["op"], cols[p["col"]], code)
     if k == "Cols":
         l, r, op = p["l"], p["r"], p["op"]
         if op in ("Eq", "Ne"):
@@ -153,6 +167,11 @@ def eval_expr(e, cols):
         return cols[e["idx"]]
     if k == "Int":
         return e["val"]
+    if k == "Str":
+        code = _str_code(e["val"])
+        if code is None:
+            raise Unsupported("string constant outside the modelled universe")
+        return code
     if k == "Arith":
         l = eval_expr(e["l"], cols)
         r = eval_expr(e["r"], cols)
@@ -194,10 +213,10 @@ def distinct(rows):
 class PlanEval:
     """Symbolic evaluator for IR JSON.  `env` maps relation name -> rows."""
 
-    def __init__(self, env, static_env=None, max_rows=MAX_ROWS):
+    def __init__(self, env, static_env=None, max_rows=None):
         self.env = env
         self.static_env = static_env if static_env is not None else env
-        self.max_rows = max_rows
+        self.max_rows = max_rows if max_rows is not None else MAX_ROWS
 
     def ev(self, ir):
         rows = [r for r in self._ev(ir) if r.p is not False]
